@@ -357,6 +357,11 @@ func unmarshal2(na datamodel.NodeAssembler, tokSrc shared.TokenSource, tk *tok.T
 		if *budget < 0 {
 			return ErrAllocationBudgetExceeded
 		}
+		// The tokenizer only yields TInt for CBOR's negative integers (-1 - argument) and rejects arguments
+		// beyond int64 -- except the largest one, 2^64-1, where its arithmetic wraps around to 0.
+		if tk.Int >= 0 {
+			return fmt.Errorf("cbor: negative integer out of range of int64 type")
+		}
 		return na.AssignInt(tk.Int)
 	case tok.TUint:
 		*budget -= 1
